@@ -174,3 +174,28 @@ def run(coro_fn, *args, timeout_steps: int | None = None, **kw):
 async def settle(n: int = 30) -> None:
     for _ in range(n):
         await asyncio.sleep(0)
+
+
+_SETUP = False
+
+
+def setup() -> None:
+    """Import every repid module the harness touches, then rebind their clocks.  Idempotent."""
+    global _SETUP
+    import importlib
+    import os
+    import pkgutil
+
+    if not _SETUP:
+        os.environ["TZ"] = "UTC"
+        _time.tzset()
+        import repid  # noqa: F401
+        for m in pkgutil.walk_packages(repid.__path__, "repid."):
+            if ".testing" in m.name:
+                continue
+            try:
+                importlib.import_module(m.name)
+            except Exception:  # noqa: BLE001  (optional back-ends)
+                pass
+        _SETUP = True
+    patch_repid()
